@@ -1,4 +1,5 @@
 import RtenVerif.Lemmas.GemmImpl
+import RtenVerif.Lemmas.GemmPack
 import RtenVerif.Generated.GemmConsts
 
 /-!
@@ -24,12 +25,18 @@ commutative semiring of scalars):
   contents (even uninitialised); `c16_beta_nonzero`: the closed form for initialised outputs.
 * `c16_block_sizes_ok`: the block sizes the code computes (`col_block_size`, `row_block_size`,
   `depth_block_size` with the constants regenerated from the source) satisfy the hypotheses.
-  (The glue `gemmPath`/`gemmImpl` that selects the branch and plugs these block sizes into
-  `schedule` is executed by the driver and compared with the real code, not restated as a theorem.)
 * zero-depth branch `c16_zero_depth`.
-
-Not proved (modelled and compared only): the `gemv` fast path (`gemvSchedule`/`runGemv`) and the
-packing slot order (`packASlots`/`packBSlots`).
+* T4 `c16_gemv_result`: the gemv fast path (column blocks × k blocks with effective beta, bias per
+  column block) gives the same element-wise result, for every `N`, `K > 0`, thread count.
+* `c16_gemmImpl_result`: the modelled `gemm_impl` end to end — branch selection (`gemmPath`),
+  block sizes plugged into `schedule`, empty / zero-depth / gemv / general path — every `Ok`
+  answer is `alpha·A·B + beta·C + bias` element-wise with nothing else touched;
+  `c16_gemmImpl_accepts_iff_valid`: `Ok` only for consistent sizes, and always for well-formed
+  requests (unpacked, or prepacked by the same kernel).
+* T3 `c16_packA_slots/_length/_offset/_slot_unique`, `c16_packB_…`: the slot order written by
+  `pack_a_block` / `pack_b_block` is, for every block size, tile size and edge panel, a bijection
+  between the block's elements and the non-padding slots of the panels (`panel_stride = MR·cols`
+  resp. `rows·NR`, row-major inside), every other slot being zero.
 
 **Partial**: the micro-kernels (SIMD code, their use of the packed panels), floating-point
 rounding, the thread schedule (the model is the sequential order; per-tile order is what the
@@ -337,5 +344,130 @@ theorem c16_gemmImpl_accepts_iff_valid {k : BlockConsts} {kern : KernelCfg} {p :
     | gemm mc nc kc calls => exact ⟨_, rfl⟩
 
 end
+
+/-! ## T3: packed panel layouts
+
+`packASlots mr rows cols` / `packBSlots nr rows cols` list, in write order, what
+`pack_a_block::<_, MR>` / `pack_b_block::<_, NR>` store for a `rows × cols` block: `some (row, col)`
+= that element of the block, `none` = zero padding.  The kernel reads panel `t` of the block at
+`t · panel_stride` with `panel_stride = MR·cols` (A) / `rows·NR` (B) elements
+(`packed_a_layout` / `packed_b_layout`), row-major `MR × cols` (A) / `rows × NR` (B) inside. -/
+
+/-- **T3 (A), slot formula**, for every block size, tile size and edge panel: slot
+`p·(MR·cols) + j·cols + col` of panel `p` holds element `(p·MR + j, col)`, or zero if that row is
+beyond the block (edge panel). -/
+theorem c16_packA_slots (mr rows cols : Nat) (hmr : 0 < mr) {p j col : Nat} (hp : p * mr < rows)
+    (hj : j < mr) (hc : col < cols) :
+    (packASlots mr rows cols)[p * (mr * cols) + (j * cols + col)]? =
+      some (if p * mr + j < rows then some (p * mr + j, col) else none) :=
+  packASlots_get mr rows cols hmr hp hj hc
+
+/-- The packed A block has exactly `ceil(rows/MR)` panels of `MR·cols` slots
+(`packed_a_layout`: `rows.next_multiple_of(MR) * cols`). -/
+theorem c16_packA_length (mr rows cols : Nat) (hmr : 0 < mr) :
+    (packASlots mr rows cols).length = divCeil rows mr * (mr * cols) :=
+  packASlots_length mr rows cols hmr
+
+/-- **T3 (A), every element is stored** at `packAOffset`. -/
+theorem c16_packA_offset (mr rows cols : Nat) (hmr : 0 < mr) {row col : Nat} (hr : row < rows)
+    (hc : col < cols) :
+    (packASlots mr rows cols)[packAOffset mr cols row col]? = some (some (row, col)) := by
+  unfold packAOffset
+  have h1 := Nat.div_add_mod' row mr
+  have h2 := Nat.mod_lt row hmr
+  have h3 := Nat.div_mul_le_self row mr
+  rw [Nat.add_assoc, packASlots_get mr rows cols hmr (by omega) h2 hc, h1]
+  simp [hr]
+
+/-- **T3 (A), bijection**: a slot that holds an element holds an element of the block, and it is
+the slot `packAOffset` of that element; so elements ↔ non-padding slots is one-to-one, and every
+other slot is zero (`none`). -/
+theorem c16_packA_slot_unique (mr rows cols : Nat) (hmr : 0 < mr) {i r c : Nat}
+    (h : (packASlots mr rows cols)[i]? = some (some (r, c))) :
+    r < rows ∧ c < cols ∧ i = packAOffset mr cols r c := by
+  have hi : i < (packASlots mr rows cols).length := by
+    apply Nat.lt_of_not_le
+    intro hn
+    rw [List.getElem?_eq_none hn] at h
+    cases h
+  rw [packASlots_length mr rows cols hmr] at hi
+  obtain ⟨hp, hj, hcol, hdec⟩ := decomp3 hi
+  have hpm : i / (mr * cols) * mr < rows := by
+    have : ¬ divCeil rows mr ≤ i / (mr * cols) := by omega
+    rw [divCeil_le_iff hmr] at this
+    omega
+  have hs := packASlots_get mr rows cols hmr hpm hj hcol
+  rw [← hdec, h] at hs
+  by_cases hlt : i / (mr * cols) * mr + i % (mr * cols) / cols < rows
+  · simp only [hlt, if_true, Option.some.injEq, Prod.mk.injEq] at hs
+    obtain ⟨hr, hc⟩ := hs
+    subst hr hc
+    refine ⟨hlt, hcol, ?_⟩
+    unfold packAOffset
+    have e1 : (i / (mr * cols) * mr + i % (mr * cols) / cols) / mr = i / (mr * cols) := by
+      rw [Nat.mul_comm _ mr, Nat.mul_add_div hmr, Nat.div_eq_of_lt hj, Nat.add_zero]
+    have e2 : (i / (mr * cols) * mr + i % (mr * cols) / cols) % mr = i % (mr * cols) / cols := by
+      rw [Nat.mul_comm _ mr, Nat.mul_add_mod, Nat.mod_eq_of_lt hj]
+    rw [e1, e2, Nat.add_assoc]
+    exact hdec
+  · rw [if_neg hlt] at hs; cases hs
+
+/-- **T3 (B), slot formula**: slot `panel·(rows·NR) + row·NR + j` holds element
+`(row, panel·NR + j)`, or zero if that column is beyond the block (edge panel). -/
+theorem c16_packB_slots (nr rows cols : Nat) {panel row j : Nat} (hp : panel < divCeil cols nr)
+    (hr : row < rows) (hj : j < nr) :
+    (packBSlots nr rows cols)[panel * (rows * nr) + (row * nr + j)]? =
+      some (if panel * nr + j < cols then some (row, panel * nr + j) else none) :=
+  packBSlots_get nr rows cols hp hr hj
+
+/-- The packed B block has exactly `ceil(cols/NR)` panels of `rows·NR` slots
+(`packed_b_layout`: `cols.next_multiple_of(NR) * rows`). -/
+theorem c16_packB_length (nr rows cols : Nat) :
+    (packBSlots nr rows cols).length = divCeil cols nr * (rows * nr) :=
+  packBSlots_length nr rows cols
+
+/-- **T3 (B), every element is stored** at `packBOffset`. -/
+theorem c16_packB_offset (nr rows cols : Nat) (hnr : 0 < nr) {row col : Nat} (hr : row < rows)
+    (hc : col < cols) :
+    (packBSlots nr rows cols)[packBOffset nr rows row col]? = some (some (row, col)) := by
+  unfold packBOffset
+  have h1 := Nat.div_add_mod' col nr
+  have h2 := Nat.mod_lt col hnr
+  rw [Nat.add_assoc, packBSlots_get nr rows cols (div_lt_divCeil hnr hc) hr h2, h1]
+  simp [hc]
+
+/-- **T3 (B), bijection.** -/
+theorem c16_packB_slot_unique (nr rows cols : Nat) (hnr : 0 < nr) {i r c : Nat}
+    (h : (packBSlots nr rows cols)[i]? = some (some (r, c))) :
+    r < rows ∧ c < cols ∧ i = packBOffset nr rows r c := by
+  have hi : i < (packBSlots nr rows cols).length := by
+    apply Nat.lt_of_not_le
+    intro hn
+    rw [List.getElem?_eq_none hn] at h
+    cases h
+  rw [packBSlots_length] at hi
+  obtain ⟨hp, hrow, hj, hdec⟩ := decomp3 hi
+  have hs := packBSlots_get nr rows cols hp hrow hj
+  rw [← hdec, h] at hs
+  by_cases hlt : i / (rows * nr) * nr + i % (rows * nr) % nr < cols
+  · simp only [hlt, if_true, Option.some.injEq, Prod.mk.injEq] at hs
+    obtain ⟨hr, hc⟩ := hs
+    subst hr hc
+    refine ⟨hrow, hlt, ?_⟩
+    unfold packBOffset
+    have e1 : (i / (rows * nr) * nr + i % (rows * nr) % nr) / nr = i / (rows * nr) := by
+      rw [Nat.mul_comm _ nr, Nat.mul_add_div hnr, Nat.div_eq_of_lt hj, Nat.add_zero]
+    have e2 : (i / (rows * nr) * nr + i % (rows * nr) % nr) % nr = i % (rows * nr) % nr := by
+      rw [Nat.mul_comm _ nr, Nat.mul_add_mod, Nat.mod_eq_of_lt hj]
+    rw [e1, e2, Nat.add_assoc]
+    exact hdec
+  · rw [if_neg hlt] at hs; cases hs
+
+example : packASlots 2 3 2 =
+    [some (0, 0), some (0, 1), some (1, 0), some (1, 1), some (2, 0), some (2, 1), none, none] := by
+  decide
+example : packBSlots 2 2 3 =
+    [some (0, 0), some (0, 1), some (1, 0), some (1, 1), some (0, 2), none, some (1, 2), none] := by
+  decide
 
 end RtenVerif.Gemm
